@@ -22,8 +22,10 @@ LEVEL_NOTE = ("TIE TO C07 (theorems, not only through the code): Conc.seq_exec â
               "a run of non-overlapping operations answers exactly as run_mem (conc_sequential_is_memstore). Bridged "
               "differences, visible in the statements: a Conc id is C07's handle Kth(id-1) relative to the COMMIT order (id "
               "allocation under concurrency), mailbox n is the name [n], dates are 0, C07's richer observations are projected "
-              "(down_obs), a walk is a sequence of listings. Not proved (NOT_PROVED): the same with the size limit (eviction "
-              "timing / enforcer book-keeping) and the file-store counterpart. "
+              "(down_obs), a walk is a sequence of listings. The file side is tied likewise: fseq_exec IS StoreSpec without cap and size limit (file_spec_is_storespec; a Conc id "
+              "is the handle of its position in the issued table, deliveries compared up to the id) and the commit order of any "
+              "schedule is a run_spec history (file_linearizable_to_storespec). Not proved (NOT_PROVED): non-overlapping runs "
+              "WITH the size limit (eviction timing / enforcer book-keeping). "
               "FAULT FAMILY: the models have no I/O errors. Cases of kind 'fault' (a directory planted at <mailbox dir>/index.gob.tmp "
               "= persistent failure of that mailbox's index rewrite; stands for disk full / read-only / lost permission) are "
               "judged by the clause directly â€” every operation must RETURN (error or not) and the lock-bucket neighbour must be "
@@ -74,7 +76,6 @@ ASSUMPTIONS = [
 ]
 NOT_PROVED = [
     "conc_sequential_is_memstore_limit_stmt (Proofs/ConcC07Seq.v): non-overlapping runs of the memory-store concurrency model WITH the size limit answer as C07's run_mem (needs the correspondence of the enforcer's book-keeping; distinct tags as hypothesis) â€” proved only without size limit (conc_sequential_is_memstore); with the limit checked by forced-schedule correspondence and the qstep oracle",
-    "file_spec_is_storespec_stmt (Proofs/ConcC07File.v): the sequential specification of the file-store concurrency model (fseq_exec) is StoreSpec without cap and size limit, ids read as handles through the issued table â€” sanity-checked by vm_compute on a history, not proved; the file side is tied to C07 through the code only",
 ]
 EXEC_TIMEOUT = {"quick": 600, "thorough": 7200}
 
